@@ -498,7 +498,6 @@ def evalCall (s : Program) (f : Frame) (callId : Nat) (used : Bool) (nargs : Nat
       let f := { f with values := vals }
       -- args[0] is the first argument (last evaluated, first popped)
       let recvFirst := recv :: args.reverse
-      let recvLast := args.reverse ++ [recv]
       match recv with
       | .closure env params body =>
         if params.length != args.length then .err f .E recvFirst (.arity params.length args.length)
@@ -524,8 +523,8 @@ def evalCall (s : Program) (f : Frame) (callId : Nat) (used : Bool) (nargs : Nat
         else match name, args with
           | "println", [.str t] => .okOut (f.pushVIf used vUnit) (t ++ "\n")
           | "print", [.str t] => .okOut (f.pushVIf used vUnit) t
-          | "println", _ => .err f .E recvLast (.typeError "String")
-          | "print", _ => .err f .E recvLast (.typeError "String")
+          | "println", _ => .err f .E recvFirst (.typeError "String")
+          | "print", _ => .err f .E recvFirst (.typeError "String")
           | "string_repr", [v] => .ok (f.pushVIf used (.str (display s v)))
           | _, _ => .unsupported ("builtin " ++ name)
       | .enumC ty idx =>
@@ -533,7 +532,7 @@ def evalCall (s : Program) (f : Frame) (callId : Nat) (used : Bool) (nargs : Nat
         else match args with
           | [a] => .ok (f.pushVIf used (.enumV ty idx (some a)))
           | _ => .panic "unreachable"
-      | _ => .err f .E recvLast (.typeError "Function")
+      | _ => .err f .E recvFirst (.typeError "Function")
 
 /-- `eval_expr`: dispatch on the node and its state. `f` is the current frame
 after the entry `(st, e)` was popped. -/
@@ -645,14 +644,15 @@ def dispatch (s : Program) (f : Frame) (st : St) (e : Expr) : Disp :=
       | none => .panic "pop_block: bindings empty"
       | some f => .ok (f.pushVIf (used && els.isNone) vUnit)
     | _ =>
-      -- the continuation is pushed BEFORE the fallible step
-      let f := f.pushE .E e
+      -- the continuation is pushed before `eval_if`; on an error it is popped again, so the
+      -- restored state is the state before the step
       match f.values with
       | cv :: vals =>
-        let f := { f with values := vals }
+        let f0 := { f with values := vals }
         match cv.asBool with
-        | none => .err f st [cv] (.typeError "Bool")
+        | none => .err f0 st [cv] (.typeError "Bool")
         | some b =>
+          let f := f0.pushE .E e
           let branchUsed := used && els.isSome
           if b then .ok (evalBlock f branchUsed thn)
           else match els with
@@ -691,15 +691,18 @@ def dispatch (s : Program) (f : Frame) (st : St) (e : Expr) : Disp :=
             if idx.toInt.toNat ≥ items.length ∨ idx.toInt < 0 then
               .ok (({ f with blocks := [] :: f.blocks }.pushE .E e).pushVIf used vUnit)
             else
-              let f := f.pushE .PD e
-              let f := (f.pushV (.int (idx + 1))).pushV iv
               match items[idx.toInt.toNat]? with
               | none => .panic "unreachable index"
               | some elem =>
                 match bindDest dest elem with
-                | .error er => .err f st [elem] er
-                | .ok bs => .ok (evalBlock { f with nextBlock := bs } false body)
-          | _ => .err f st [iv] (.typeError "List")
+                -- `undo_for_in_pushes`: the continuation and the two values pushed for the next
+                -- iteration are removed again; index and iterated value are restored
+                | .error er => .err f st [idxv, iv] er
+                | .ok bs =>
+                  let f := f.pushE .PD e
+                  let f := (f.pushV (.int (idx + 1))).pushV iv
+                  .ok (evalBlock { f with nextBlock := bs } false body)
+          | _ => .err f st [idxv, iv] (.typeError "List")
         | _ => .panic "`for` loop index should always be an `Int`"
       | _ => .panic "Popped an empty value stack for `for` loop"
     | .PD =>
@@ -719,16 +722,17 @@ def dispatch (s : Program) (f : Frame) (st : St) (e : Expr) : Disp :=
       | none => .panic "pop_block: bindings empty"
       | some f => .ok f
     | _ =>
-      let f := f.pushE .E e
       match f.values with
       | sv :: vals =>
-        let f := { f with values := vals }
+        -- on any error of `eval_match_cases` the continuation is popped again and the
+        -- scrutinee is put back
+        let f0 := { f with values := vals }
         match sv with
         | .enumV ty idx payload =>
-          match matchCases s f used ty idx payload cases with
+          match matchCases s (f0.pushE .E e) used ty idx payload cases with
           | .ok f => .ok f
-          | .error er => .err f st [] er
-        | _ => .err f st [] .notEnum
+          | .error er => .err f0 st [sv] er
+        | _ => .err f0 st [sv] .notEnum
       | [] => .panic "Popped an empty value stack for match"
   | .brk .. =>
     match evalBreakLoop f.exprs f.values f.blocks with
